@@ -147,6 +147,14 @@ Proof.
   - apply calmp_op; [reflexivity|]. intro r2. destruct (names_eqb _ _); [exact I|apply IH].
 Qed.
 
+Lemma calmp_open_reload : forall attempts, calmp (open_reload attempts).
+Proof.
+  induction attempts as [|a IH]; cbn [open_reload]; [exact I|].
+  apply calmp_op; [reflexivity|]. intro r.
+  apply calmp_bind; [apply calmp_open_all|]. intros [m|]; [exact I|].
+  apply calmp_op; [reflexivity|]. intro r2. destruct (names_eqb _ _); [exact I|apply IH].
+Qed.
+
 Lemma calmp_close : forall m, calmp (close m).
 Proof.
   intro m. unfold close. apply calmp_op; [reflexivity|]. intro c.
@@ -309,7 +317,7 @@ Proof.
     by (intro x; cbn [res]; split; [exact Hfr|reflexivity]).
   destruct o; destruct m as [mm|]; cbn [call_prog]; try apply Hret;
     try (apply res_wrap; first [apply res_add; exact Hfr
-                               | apply res_calm_nothing; [first [apply calmp_reload|apply calmp_close]|exact Hfr]]).
+                               | apply res_calm_nothing; [first [apply calmp_reload|apply calmp_open_reload|apply calmp_close]|exact Hfr]]).
   - destruct mm; [apply Hret|]. apply res_wrap. apply res_compact_range. exact Hfr.
   - destruct mm; [apply Hret|]. apply res_wrap. apply res_compact_range. exact Hfr.
 Qed.
